@@ -30,6 +30,23 @@ VALUES = ['v', '5', '-3', 'a/b', '1.0', 'utf-16', 'dos', '0', '-0', '007',
           'change', '9' * 5000, 'v' * 70000]
 INT = re.compile(r'-?[0-9]+')
 
+# key names real producers use (VCS vocabulary, identifiers, counters): a
+# reader may not treat any of them specially
+REAL_KEYS = ['commit', 'parent-commit', 'base_revision', 'revision', 'rev',
+             'changeset', 'sha1', 'sha256', 'sha512', 'md5', 'hash',
+             'checksum', 'digest', 'id', 'x-id', 'change_id', 'ID', 'uuid',
+             'author', 'date', 'timestamp', 'path', 'mode', 'size', 'count',
+             'index', 'line', 'lines', 'offset', 'position', 'number', 'num',
+             'n', 'level', 'depth', 'width', 'tab-width', 'charset', 'codec',
+             'newline', 'eol', 'bom', 'binary', 'text', 'compression',
+             'content-length', 'content-type', 'Content-Encoding', 'lang',
+             'name', 'title', 'branch', 'tag', 'ref', 'origin', 'tool',
+             'generator', 'producer', 'diffx', 'meta', 'preamble', 'file',
+             'change', 'diff', 'stats', 'insertions', 'deletions', 'op',
+             'key', 'value', 'option', 'options', 'true', 'false', 'null',
+             'none', 'self', 'class', 'type_', 'length2']
+REAL_VALUES = ['1234567', '0051942', '-42', '0', 'abc123', 'v1.2']
+
 
 def conv(v):
     # CPython refuses to convert more than 4300 digits: verbatim then
@@ -171,6 +188,8 @@ def plan(tier):
         if tier == 'thorough':
             for hi in range(nh):
                 units.append(('pair', fi, hi))
+    units.append(('real-keys', 0, 0))
+    units.append(('real-keys', 3, 0))
     return {
         'units': units,
         'rule': '%d well-formed files (generated: plain, long content, '
@@ -231,6 +250,13 @@ def run_unit(unit, tier):
                     'example': repr(insert(data, spans[hi], 0, 'Length',
                                            '-3')[spans[hi][0]:
                                                  spans[hi][1] + 12])}, 1)
+    elif kind == 'real-keys':
+        for key in REAL_KEYS:
+            for value in REAL_VALUES:
+                for h in range(len(spans)):
+                    one([(h, 0, key, value)], True)
+                    one([(h, len(spans[h][3]), key, value)], True)
+        acc.sample({'file': name, 'realistic_keys': REAL_KEYS[:8]}, 1)
     elif kind == 'same-key':
         # the SAME unknown key on two (or three) different headers of one
         # file with values of different kinds: what one header's value looked
